@@ -4,6 +4,7 @@ import (
 	"context"
 	"math"
 	"sort"
+	"time"
 
 	"github.com/prometheus/prometheus/model/labels"
 	"github.com/prometheus/prometheus/promql/parser"
@@ -50,7 +51,7 @@ func topkNodeAmbiguous(c *core.Case, e *parser.AggregateExpr, st *memstore.Store
 	if err != nil || op.Err != nil {
 		return false
 	}
-	par, err := Run(ctx, ref, sess(), qo, e.Param.String(), c.Start, c.End, c.Step)
+	par, err := Run(ctx, ref, sess(), qo, paramInSitu(c, e.Param), c.Start, c.End, c.Step)
 	if err != nil || par.Err != nil {
 		return false
 	}
@@ -101,6 +102,34 @@ func topkNodeAmbiguous(c *core.Case, e *parser.AggregateExpr, st *memstore.Store
 		}
 	}
 	return false
+}
+
+// paramInSitu renders an aggregation parameter as the stand-alone query that has the
+// value the parameter takes inside the aggregation. The pinned promql.PreprocessExpr never
+// visits parameters: there @ start() / @ end() stay unresolved and are ignored, and a
+// literal @ t becomes the fixed offset (start - t) of a range query (KF-param-at). As a
+// query of its own the parameter would be preprocessed and pinned properly.
+func paramInSitu(c *core.Case, param parser.Expr) string {
+	p, err := parser.ParseExpr(param.String())
+	if err != nil {
+		return param.String()
+	}
+	parser.Inspect(p, func(n parser.Node, _ []parser.Node) error {
+		vs, ok := n.(*parser.VectorSelector)
+		if !ok {
+			return nil
+		}
+		switch {
+		case vs.StartOrEnd != 0:
+			vs.StartOrEnd = 0
+			vs.Timestamp = nil
+		case vs.Timestamp != nil && c.Step > 0 && c.End > c.Start:
+			vs.OriginalOffset += time.Duration(c.Start-*vs.Timestamp) * time.Millisecond
+			vs.Timestamp = nil
+		}
+		return nil
+	})
+	return p.String()
 }
 
 func groupKey(s oracle.RSeries, e *parser.AggregateExpr) string {
